@@ -9,7 +9,7 @@ TB = "Coq 8.16.1 kernel and vm_compute; hand-written Gallina model tied to /repo
 import importlib, sys
 sys.path.insert(0, os.path.join(HERE, "tools"))
 # properties whose check is integrated (fixes applied to /repo, check passes on the unchanged tree)
-READY = {"C01", "C02", "C03", "C04", "C05", "C06", "C07", "C08", "C09", "C10", "C11", "C12", "C13", "C14", "C15", "C17", "C19", "C20"}
+READY = {"C%02d" % i for i in range(1, 21)}
 CLAIMS = {}
 for pid in ALL:
     if os.path.exists(os.path.join(HERE, "tools", "props", pid.lower() + ".py")):
